@@ -14,9 +14,10 @@ RULE = ('a DM1 sender (Dm1.start_send with cycle 50 ms..2 s) whose callback supp
         'SPN/FMI/OC over their full ranges (boundaries over-weighted); 1-2 receiver stacks with Dm1.subscribe and a raw listener; both data link layers so the message '
         'travels as single frame, BAM, FD multi-PG or FD BAM; start_send/stop_send histories; DM22 individual-clear requests. The raw payload on the receiving stack is '
         'decoded by the independent J1939-73 codec. non-trivial = at least one DM1 message was delivered; distinct = distinct scenario JSON')
-FAULT_COUNTERS = {'stop_send calls': 'stops'}
-REQUIRED_PROBES = ['dm1_cycles', 'dm1_deliveries', 'single_frame_msgs', 'bam_msgs', 'mpg_msgs', 'fd_bam_msgs', 'stops', 'dm22_frames', 'spn_above_16bit']
+FAULT_COUNTERS = {'stop_send calls': 'stops', 'stop_send called from inside the supplier callback': 'stops_in_callback'}
+REQUIRED_PROBES = ['dm1_cycles', 'dm1_deliveries', 'single_frame_msgs', 'bam_msgs', 'mpg_msgs', 'fd_bam_msgs', 'stops', 'dm22_frames', 'spn_above_16bit', 'companion_runs', 'stops_in_callback']
 T_ADDR = 0x3A
+T2_ADDR = 0x3B
 SPNS = [0, 1, 0xFFFF, 0x10000, 0x10001, 0x40000, 0x7FFFF, 0x7FFFE, 0x5A5A5]
 NDTC = [1, 1, 2, 3, 14, 15, 40, 100, 400]
 
@@ -58,9 +59,13 @@ def generate(rng, tier, i):
             w = max(w, int(dur_ms * rng.choice([1.3, 2.4])) + 2 * cyc)      # long enough for a second transfer after a busy cycle
         hist.append({'op': 'wait', 'ms': w})
         if rng.random() < 0.8:
-            hist.append({'op': 'stop'})
+            hist.append({'op': 'stop', 'in_callback': rng.random() < 0.3})
             hist.append({'op': 'wait', 'ms': int(cyc * rng.choice([1.2, 2.5]))})
-    scn = {'kernel': gen.draw_kernel(rng), 'latency': gen.draw_latency(rng, not fd, [s['name'] for s in stacks]), 'stacks': stacks, 'ndtc': n,
+    companion = rng.random() < 0.4
+    if companion:
+        # a second CA on the sending ECU with its own cyclic DM1 (one trouble code, 100 ms), switched on for the whole run
+        stacks[0]['cas'].append({'addr': T2_ADDR})
+    scn = {'kernel': gen.draw_kernel(rng), 'latency': gen.draw_latency(rng, not fd, [s['name'] for s in stacks]), 'stacks': stacks, 'ndtc': n, 'companion': companion,
            'content_seed': rng.randrange(1 << 20), 'history': hist, 'reuse_objects': rng.random() < 0.4, 'bound_method_callback': rng.random() < 0.4, 'resubscribe': rng.random() < 0.3,
            'dm22': [{'act': rng.random() < 0.5, 'spn': rng.choice(SPNS + [rng.getrandbits(19)]), 'fmi': rng.getrandbits(5), 'dest': rng.choice([0x50, 255])}
                     for _ in range(rng.choice([0, 1, 2]))]}
@@ -102,6 +107,7 @@ def execute(scn, keep_log=False, hook=None):
         d.subscribe(listener)
 
     live_lamps, live_dtcs = {}, []
+    incb = {'armed': False, 'at': None}
 
     def supplier():
         k = len(invocations)
@@ -109,6 +115,12 @@ def execute(scn, keep_log=False, hook=None):
         invocations.append((sim.now, k, lamps, dtcs))
         stats['dm1_cycles'] += 1
         stats['spn_above_16bit'] += sum(1 for x in dtcs if x['spn'] > 0xFFFF)
+        if incb['armed']:
+            # the application switches the cyclic sending off from inside its own supplier callback
+            incb['armed'] = False
+            dm1_tx.stop_send(cb())
+            incb['at'] = sim.now
+            stats['stops_in_callback'] += 1
         if scn.get('reuse_objects'):
             # an application that keeps one lamp dict and one code list and updates them in place
             live_lamps.clear()
@@ -119,11 +131,16 @@ def execute(scn, keep_log=False, hook=None):
 
     # ---- bus monitor: instants at which a *new* DM1 message starts
     starts = []
+    companion_tx = []
 
     def observe(fr):
         if fr.src != 'T':
             return
         i = rc.Id(fr.can_id)
+        if i.sa == T2_ADDR:
+            if (i.pf == 0xFE and i.ps == 0xCA) or (fd and i.pf == rc.PF_MULTI_PG):
+                companion_tx.append(fr.t)
+            return
         if i.pf == 0xFE and i.ps == 0xCA:
             starts.append((fr.t, 'single'))
         elif not fd and i.pf == rc.PF_TP_CM and fr.data[0] == rc.BAM and rc.le24(fr.data, 5) == 0xFECA:
@@ -147,7 +164,17 @@ def execute(scn, keep_log=False, hook=None):
 
     def cb():
         return app.supply if scn.get('bound_method_callback') else supplier
+    t_comp = None
+    if scn.get('companion') and len(T.cas) > 1:
+        dm1_b = j.Dm1(T.cas[1])
+        comp_content = ({key: 1 for key in rc.LAMPS}, [{'spn': 0x1234, 'fmi': 5, 'oc': 1}])
+
+        def comp_supplier():
+            return dict(comp_content[0]), [dict(x) for x in comp_content[1]]
+        dm1_b.start_send(comp_supplier, 0.1)
+        t_comp = sim.now
     segments = []        # (t_start, cycle_ns, t_stop or None)
+    own_message_after = []      # stop instants inside the supplier callback: the message of that very invocation still goes out
     cur = None
     for h in scn['history']:
         if h['op'] == 'start':
@@ -158,9 +185,20 @@ def execute(scn, keep_log=False, hook=None):
         elif h['op'] == 'stop':
             if cur is None:
                 continue
-            dm1_tx.stop_send(cb())
+            if h.get('in_callback'):
+                incb['armed'], incb['at'] = True, None
+                sim.run_for(cur[1] / 1e9 + 0.02)          # until the next invocation of the supplier has done it
+                if incb['at'] is None:
+                    incb['armed'] = False                 # (no invocation came: the pair was busy; stop from outside after all)
+                    dm1_tx.stop_send(cb())
+                    cur[2] = sim.now
+                else:
+                    cur[2] = incb['at']
+                    own_message_after.append(incb['at'])
+            else:
+                dm1_tx.stop_send(cb())
+                cur[2] = sim.now
             stats['stops'] += 1
-            cur[2] = sim.now
             segments.append(tuple(cur))
             cur = None
         else:
@@ -174,6 +212,13 @@ def execute(scn, keep_log=False, hook=None):
     lmax = scn['kernel']['lmax_ns']
     eps = 200 * scn['kernel']['read_cost_ns'] + 50_000 + n * 40 * scn['kernel']['read_cost_ns']
 
+    # ---- the other sender on the same ECU keeps its own cycle whatever is started and stopped next to it
+    if t_comp is not None:
+        stats['companion_runs'] += 1
+        marks = [t_comp] + [t for t in companion_tx if t <= t_hist_end] + [t_hist_end]
+        worst = max(b - a for a, b in zip(marks, marks[1:]))
+        if worst > 100_000_000 + lmax + eps + 30_000_000:
+            viol.append({'clause': 'other-sender-stopped', 'rank': 2, 'msg': 'the DM1 sender of the second CA on the ECU (cycle 100 ms, never stopped) sent nothing for %.0f ms' % (worst / 1e6)})
     # ---- no new DM1 message after stop_send returned; cycles spaced by the cycle time
     for (ts, cyc, te) in segments:
         end = te if te is not None else t_hist_end
@@ -182,6 +227,8 @@ def execute(scn, keep_log=False, hook=None):
         if te is not None:
             nxt = min([s[0] for s in segments if s[0] >= te] + [sim.now + 1])
             late = [t for (t, _m) in starts if te < t < nxt]
+            if te in own_message_after and late and late[0] - te < lmax + eps + 1_000_000:
+                late = late[1:]
             if late:
                 viol.append({'clause': 'dm1-after-stop', 'rank': 2, 'msg': '%d new DM1 message(s) started after stop_send returned, the first %.3f ms later' % (len(late), (late[0] - te) / 1e6)})
         # the cyclic transmission never dies while it is switched on: a new DM1 starts at the latest one cycle after the
@@ -216,6 +263,8 @@ def execute(scn, keep_log=False, hook=None):
         pos = 0
         matched = 0
         for (t, sa, lamps, dtcs) in calls:
+            if sa == T2_ADDR and scn.get('companion'):
+                continue
             found = None
             for k in range(pos, len(invocations)):
                 if invocations[k][2] == lamps and invocations[k][3] == dtcs:
@@ -246,7 +295,7 @@ def execute(scn, keep_log=False, hook=None):
         if not viol and not must_all and invocations and matched == 0 and finished:
             viol.append({'clause': 'dm1-not-received', 'rank': 2, 'feat': {'mode': mode}, 'msg': '%s received none of the DM1 messages (%d trouble codes, %s)' % (r.name, n, mode)})
     # ---- raw payload on the receiving stack, decoded independently (bit positions of J1939-73)
-    raw = [d for d in w.deliveries if d['stack'] == 'R0' and d['l'] == 'ecu0' and d['pgn'] == 0xFECA]
+    raw = [d for d in w.deliveries if d['stack'] == 'R0' and d['l'] == 'ecu0' and d['pgn'] == 0xFECA and d['sa'] != T2_ADDR]
     pos = 0
     for d in raw:
         b = d['data']
